@@ -5,6 +5,7 @@ import ReplayModel.World
 import ReplayModel.Play
 import ReplayProofs.Lemmas.World
 import ReplayProofs.C05
+import ReplayModel.Pipeline
 namespace ReplayModel.C12
 open ReplayModel
 
@@ -252,5 +253,65 @@ example : survivors (fun _ => true) ⟨⟨[]⟩, {}, wowsOld, {}⟩ {}
     [⟨0x99, 0, [], 0⟩, ⟨0x7, 0, [1, 0, 0, 0, 0, 0, 0, 0, 0, 0, 0, 0], 12⟩, ⟨0x98, 0, [], 0⟩]
     = [⟨0x99, 0, [], 0⟩, ⟨0x98, 0, [], 0⟩] := by
   decide +kernel
+
+/-! ### the top of the pipeline: `ReplayParser.get_info` (model: `ReplayModel/Pipeline.lean`) -/
+
+/-- **The top-level call returns a result object in lenient mode** whenever the container
+itself can be read — whatever the version field, the bundle and the stream contain. -/
+theorem getInfo_lenient_returns (env : Env) (ext : String) (file : Bytes) (info : ReplayInfo)
+    (h : readContainer env.D env.inflate ext file = .ok info) :
+    ∃ hidden error, getInfo env false ext file = .returns info hidden error := by
+  unfold getInfo
+  simp only [h, Bool.false_eq_true, if_false]
+  cases hv : env.versionOf info.game info.engine with
+  | none => exact ⟨none, none, rfl⟩
+  | some vs =>
+    simp only
+    cases hs : selectVersion env.bundled info.game vs with
+    | error r => exact ⟨none, r.message, rfl⟩
+    | ok sel =>
+      simp only
+      cases he : (play env.jsonOk (configOf env info.game sel) false {} info.stream).ending with
+      | finished => exact ⟨_, _, rfl⟩
+      | headerShort => exact ⟨_, _, rfl⟩
+      | raised i e => exact ⟨_, _, rfl⟩
+
+/-- a strict play that ends `finished` is the lenient play -/
+theorem play_strict_finished (w : World) (stream : Bytes)
+    (h : (play jsonOk cfg true w stream).ending = .finished) :
+    play jsonOk cfg false w stream = play jsonOk cfg true w stream := by
+  simp only [play] at h ⊢
+  rcases strict_prefix jsonOk cfg (parsePackets stream).1 w 0 [] with ⟨hnf, _⟩ | ⟨pre, np, post, e, _, _, _, hp⟩
+  · rw [(modes_agree jsonOk cfg _ w 0 [] hnf).1]
+  · simp only [hp, endingOf] at h
+    cases h
+
+/-- **Both modes agree at the top level**: whatever strict mode returns, lenient mode returns
+the same object (strict mode only ever *adds* exceptions). -/
+theorem getInfo_strict_returns_lenient (env : Env) (ext : String) (file : Bytes) (info : ReplayInfo)
+    (hidden : Option PlayResult) (error : Option String)
+    (h : getInfo env true ext file = .returns info hidden error) :
+    getInfo env false ext file = .returns info hidden error := by
+  unfold getInfo at h ⊢
+  cases hr : readContainer env.D env.inflate ext file with
+  | error e => simp [hr] at h
+  | ok inf =>
+    simp only [hr, if_true] at h ⊢
+    cases hv : env.versionOf inf.game inf.engine with
+    | none => simp [hv] at h
+    | some vs =>
+      simp only [hv] at h ⊢
+      cases hs : selectVersion env.bundled inf.game vs with
+      | error r => simp [hs] at h
+      | ok sel =>
+        simp only [hs] at h ⊢
+        cases he : (play env.jsonOk (configOf env inf.game sel) true {} inf.stream).ending with
+        | finished =>
+          rw [play_strict_finished env.jsonOk _ {} inf.stream he, he]
+          rw [he] at h
+          exact h
+        | headerShort => rw [he] at h; cases h
+        | raised i e => rw [he] at h; cases h
+
 
 end ReplayModel.C12
